@@ -332,6 +332,19 @@ def c05_8(ctx):
         for c in calls_in(g.node, 'add'):
             if len(c.args) >= 2 and U(c.args[1]) != g.params[2]:
                 ctx.fail(g, c, 'recursive add is called as %s: (date, days) in that order' % U(c))
+    # the default chain only reaches the calendar's own convention (self.adj) when the parameter defaults to None
+    for (mod, cls, name), node in sorted(r.funcs.items(), key=str):
+        if mod == '_drange' and cls == 'Calendar' and name in ('adjust', 'add', 'bdays', 'drange', 'dt_bump'):     # the business-day arithmetic of this property (trade_date documents its own 'f')
+            m = r.fn('_drange:Calendar.%s' % name)
+            chain = [b for b in ast.walk(m.node) if isinstance(b, ast.BoolOp) and isinstance(b.op, ast.Or) and [U(v) for v in b.values[:2]] == ['adj', 'self.adj']]
+            if 'adj' in m.params and chain:
+                ctx.count(1, m.where())
+                d = m.defaults().get('adj')
+                if d is None or const(d, 'X') is not None:
+                    ctx.fail(m, m.node, "Calendar.%s declares adj=%s: any default but None makes `adj or self.adj` dead, so a calendar built with adj='p'/'f' is counted with %s there and with its own convention in adjust/bdays" % (name, U(d) if d is not None else '<required>', U(d) if d is not None else '?'),
+                             stmt='def %s(adj=%s)' % (name, U(d) if d is not None else ''))
+    ini = r.fn('_drange:Calendar.__init__')
+    none_not_falsy(ctx, ini, ['weekend', 'holidays'], 'an EMPTY weekend/holiday list is a configuration of its own (every day of the week is a business day): the Sat-Sun default may only replace None')
     g = r.fn('_drange:Calendar.add')
     t = [s for s in g.body if isinstance(s, ast.Assign) and U(s.targets[0]) == 't']
     ctx.count(1)
